@@ -7,12 +7,12 @@
 (* (C19Def: union of the parallelograms of the property statement):                          *)
 (*   QuadsAreParas  the quads built are exactly the parallelograms (as a bag of rings)       *)
 (*   NonNegative    every quad has non-negative area after normalisation                     *)
-(*   CoverOK        at every half-integer sample point off the quad edges:                   *)
+(*   CoverOK        at every sample point (half-integer grid) off the quad edges:               *)
 (*                  NonZero-filled(sum of quad windings) <=> inside some parallelogram       *)
 (* With NORMALISE = FALSE (C19MinkNoNorm.cfg) CoverOK must FAIL (opposite quads cancel under *)
 (* NonZero): the driver runs that configuration as a vacuity guard.  Indices are 1-based.    *)
 EXTENDS C19Def, C19Scope, PathOps, Fill, TLC
-CONSTANT NORMALISE
+CONSTANTS NORMALISE, FINE
 
 VARIABLES inp, g, h, i, j, res, pc
 vars == <<inp, g, h, i, j, res, pc>>
@@ -49,9 +49,12 @@ BagOf(S) == LET ks == [k \in 1..Len(S) |-> RingKey(S[k])]
 QuadsAreParas == pc = "done" => BagOf(res) = BagOf([k \in 1..Len(Q) |-> Corners(Q[k])])
 NonNegative == (pc = "done" /\ NORMALISE) => \A k \in 1..Len(res) : Area2(res[k]) >= 0
 
-(* doubled coordinates: sample points are all half-integer points of the box around the result *)
-Grid == LET lo == IF inp.sum THEN -1 ELSE -2 * N + 1  hi == IF inp.sum THEN 4 * N - 3 ELSE 2 * N - 1
-        IN (lo..hi) \X (lo..hi)
+(* doubled coordinates: sample points are all half-integer points of the box around the result   *)
+(* (points outside that box are outside every quad and every parallelogram); for path lengths     *)
+(* not in FINE only the unit-cell centres (both coordinates odd) are used                         *)
+Grid == LET lo == IF inp.sum THEN 0 ELSE -2 * (N - 1)  hi == IF inp.sum THEN 4 * (N - 1) ELSE 2 * (N - 1)
+            G == (lo..hi) \X (lo..hi)
+        IN IF Len(inp.path) \in FINE THEN G ELSE {p \in G : p[1] % 2 = 1 /\ p[2] % 2 = 1}
 CoverOK == pc = "done" =>
   LET R2 == ScalePaths(res, 2)  E == AllEdges(R2)
       Q2 == Paras(ScalePath(inp.pat, 2), ScalePath(inp.path, 2), inp.closed, inp.sum)
